@@ -187,7 +187,7 @@ TOTAL_PREFIXES = (
 # Pure, total externals whose calls are not recorded in the event trace (noise).
 NOISE_PREFIXES = (
     "logger.", "logging.", "voluptuous.", "vol.", "os.path.", "timeit.", "calendar.", "time.time",
-    "time.localtime", "time.gmtime", "binascii.hexlify", "awesomeversion.", "importlib.", "crcmod.", "str.", "bytes.",
+    "time.localtime", "time.gmtime", "awesomeversion.", "crcmod.", "str.", "bytes.",
     "int.", "float.", "tuple.", "object.", "dict_items.", "dict_values.", "dict_keys.",
 )
 
@@ -613,7 +613,12 @@ class ExtModel:
                 return outs
             return [("val", st, Unknown(label=f"get:{self._site(interp, st, node)}", nullable=True))]
         if isinstance(recv, Const) and isinstance(recv.value, dict):
-            return [("val", st, Unknown(label=f"get:{self._site(interp, st, node)}", nullable=True))]
+            if isinstance(k, Const):
+                try:
+                    return [("val", st, Const(recv.value[k.value]) if k.value in recv.value else default)]
+                except TypeError:
+                    pass
+            return [("val", st, Unknown(label=f"get:{self._site(interp, st, node)}:{k.key()!r}", nullable=True))]
         loc = (recv.key(), "i", k.key())
         if loc in st.mem:
             return [("val", st, st.mem[loc])]
